@@ -264,4 +264,7 @@ theorem gen_mod_switch_drop_refuses_unfit : type_of% @HC.gl_mod_switch_drop_refu
 example : HC.GenC.ckks_multiply_sk true true 2 2 8192 3 true true true true = .ok (3, 1) := by
   rw [HC.gl_ckks_multiply_eq _ _ _ _ _ _ _ _ _ _ (by norm_num) (by norm_num) (by norm_num) (by norm_num)]; decide
 
+/-- `multiply_plain_normal` (coefficient-form operands): the ROUTE (monomial shortcut / generic NTT route, with / without the fast plain lift; the
+    data steps are codes, the last of the generic route being the FULL inverse transform `intt_ps`) and the CKKS scale rule at both exits -/
+theorem gen_multiply_plain_normal_plan_eq : type_of% @HC.gl_multiply_plain_normal_plan_eq := @HC.gl_multiply_plain_normal_plan_eq
 end HC.C03
